@@ -500,6 +500,51 @@ def bump(v: int, x):
     return x
 
 
+def naming_facts(scope, node, inline_cls) -> dict:
+    """Where every visible name of a build scope comes from (the hypotheses `NameFacts` of
+    build_scope_prefixFree), read off the real Scope just before `_Inline.to_onnx(node)`."""
+    try:
+        k = scope.node[node]
+        users, bases, viol = [], [], []
+        inlines = [n for o, n in scope.node.name_of.items() if isinstance(o, inline_cls) and o is not node]
+        for var, name in scope.var.name_of.items():
+            if getattr(var, "_name", None) is not None:
+                users.append(name)
+                continue
+            op_ = var._op
+            if op_ not in scope.node.name_of:
+                users.append(name)  # `Scope.of(...)` of adapt_inline: every name is given, none generated
+                continue
+            field = next((f for f, v in op_.outputs.get_vars().items() if v is var), None)
+            base = f"{scope.node[op_]}_{field}"
+            if name == base or name.startswith(base + "_"):
+                bases.append(base)
+            else:
+                viol.append(f"value name {name} is neither preset nor {base}[_c]")
+        def from_inline(n):
+            return any(n.startswith(q + "__") for q in inlines)
+        for n in scope.var.reserved:
+            if not from_inline(n):
+                viol.append(f"reserved value name {n} does not come from another Inline node")
+        for b in scope.var.base_name_counters:
+            if b not in bases and not from_inline(b):
+                viol.append(f"value counter key {b} belongs to no visible generated name")
+        node_names = list(scope.node.name_of.values())
+        for b in scope.node.base_name_counters:
+            if not from_inline(b):
+                node_names.append(b)
+        for n in scope.node.reserved:
+            if not from_inline(n):
+                viol.append(f"reserved node name {n} does not come from another Inline node")
+        d = {"k": k, "users": sorted(set(users)), "varBases": sorted(set(bases)), "inlines": sorted(set(inlines)),
+             "nodeNames": sorted(set(node_names))}
+        if viol:
+            d["violations"] = viol[:5]
+        return d
+    except Exception as e:  # noqa: BLE001
+        return {"unobservable": f"{type(e).__name__}: {e}"}
+
+
 def chainable(m: onnx.ModelProto, float_ins, float_outs) -> bool:
     """Feeding the first float output back into the float inputs is a legal call."""
     if not float_outs or not float_ins:
@@ -1157,6 +1202,8 @@ def run(ck: core.Check):
     # ---- model-free oracle (while it runs, observe the scopes the build hands to _Inline.to_onnx:
     #      rename_total's hypothesis "nothing visible or counted starts with <node>__")
     scope_obs = {"to_onnx_calls": 0, "prefix_free": 0}
+    name_cases: list = []
+    name_cap = ck.pick(4000, 12000)
     restore_hook = None
     try:
         import spox._inline as _I
@@ -1174,7 +1221,10 @@ def run(ck: core.Check):
                         names |= set(q.base_name_counters)
                         q = q.parent
                 scope_obs["to_onnx_calls"] += 1
-                scope_obs["prefix_free"] += int(not any(n.startswith(pre) for n in names))
+                free = not any(n.startswith(pre) for n in names)
+                scope_obs["prefix_free"] += int(free)
+                if len(name_cases) < name_cap:
+                    name_cases.append((naming_facts(scope, self, _I._Inline), free))
             except Exception as e:  # noqa: BLE001
                 scope_obs["unobservable"] = f"{type(e).__name__}: {e}"
             return _orig_to_onnx(self, scope, *a, **k)
@@ -1190,6 +1240,25 @@ def run(ck: core.Check):
             restore_hook()
     if scope_obs.get("to_onnx_calls") and scope_obs["prefix_free"] != scope_obs["to_onnx_calls"]:
         ck.notes.append(f"{scope_obs['to_onnx_calls'] - scope_obs['prefix_free']} build scopes were not free of the node's prefix family (rename_total does not apply to them)")
+    # build_scope_prefixFree: naming facts observed, condition evaluated by the model
+    facts_bad = [c for c, _ in name_cases if c.get("violations")]
+    if facts_bad:
+        ck.broken("correspondence", "C08 naming facts (NameFacts) do not describe a build scope", json.dumps(facts_bad[0])[:600])
+    nd = [c for c, _ in name_cases if "unobservable" not in c]
+    try:
+        safe_ans = ck.driver().ask_many("C08", [{"nameData": c} for c in nd]) if nd else []
+    except Exception as e:  # noqa: BLE001
+        ck.broken("correspondence", "C08 driver (nameData)", str(e))
+        safe_ans = []
+    n_safe = 0
+    frees = [f for c, f in name_cases if "unobservable" not in c]
+    for c, f, a in zip(nd, frees, safe_ans):
+        if a.get("safe"):
+            n_safe += 1
+            if not f and not c.get("violations"):
+                ck.broken("correspondence", "C08 build_scope_prefixFree: safe names but the scope is not prefix-free", json.dumps(c)[:600])
+    scope_obs.update({"naming_cases": len(nd), "naming_safe": n_safe, "naming_facts_violated": len(facts_bad),
+                      "naming_unobservable": len(name_cases) - len(nd)})
     ck.cov["build_scopes_observed"] = scope_obs
     ck.cov.update({"models": len(models), "invalid_candidates_dropped": dropped, "feature_histogram": feature_hist})
     _finish_evidence(ck)
